@@ -130,6 +130,8 @@ type vfC22Env struct {
 	secret []byte
 	nonceN int
 
+	sameCred bool // space 2: every request carries the same credential headers; revoked decides the verdict
+	revoked  bool
 	caller string // space 2: value of the caller header on every request sent ("" = none => rejected)
 	decor int // test-phase request decoration: 0 none, 1 Authorization: Bearer, 2 PKCE auth cookie
 
@@ -224,6 +226,19 @@ func vfC22Build(x *venum.X, mask, proof int, prefix string, kind vfC22Kind) (*vf
 	}
 	var auth AuthenticateFunc = func(r *http.Request) (*AuthContext, error) {
 		c.authCalls++
+		// Space 2, "same credential" histories: every request carries the SAME
+		// credential headers; the verdict for that credential is server-side
+		// state of the authenticator (valid until the harness revokes it), so
+		// nothing in the request distinguishes "accepted" from "rejected".
+		if e.sameCred {
+			if !e.revoked {
+				return &AuthContext{Domain: "vf", Authenticated: true, Principal: "intro"}, nil
+			}
+			if e.kind.withCtx {
+				return &AuthContext{Domain: "vf", Authenticated: true, Principal: "intro"}, e.kind.mk()
+			}
+			return nil, e.kind.mk()
+		}
 		// Space 2 (histories): the caller is decided per request from a header.
 		switch r.Header.Get(vfC22CallerHeader) {
 		case "intro":
@@ -293,6 +308,13 @@ func (e *vfC22Env) do(method, path string, body []byte, hdr ...string) (*httptes
 	}
 	if e.caller != "" {
 		all = append(all, vfC22CallerHeader, e.caller)
+	}
+	if e.sameCred {
+		all = append(all,
+			"Authorization", "Bearer K-live-credential",
+			"Cookie", authCookieName+"=K-live-credential",
+			"X-Forwarded-Client-Cert", `Hash=abc;Subject="CN=intro"`,
+			"X-Api-Key", "K-live-credential")
 	}
 	if e.phase == "test" {
 		switch e.decor {
@@ -698,6 +720,9 @@ func TestVerif_C22(t *testing.T) {
 		second := guarded[x.Choose(len(guarded), "route2(rejected)")]
 		hc := histCfgs[x.Choose(len(histCfgs), "features+prefix")]
 		kind := histKinds[x.Choose(len(histKinds), "authenticator")]
+		// why request 2 is rejected: another caller, or the SAME credential
+		// whose verdict changed (revoked / expired since request 1)
+		cause := x.Pick("rejection-cause", "other-caller", "revoked-credential")
 
 		vfResetEvents()
 		e, err := vfC22Build(x, hc.mask, 0, hc.prefix, kind)
@@ -707,10 +732,13 @@ func TestVerif_C22(t *testing.T) {
 		}
 		defer e.close()
 		e.phase = "test" // no caller header => rejected with kind
-		x.Note("mask=%d prefix=%q authenticator=%s: accepted %q then rejected %q", hc.mask, hc.prefix, kind.name, first.name, second.name)
+		x.Note("mask=%d prefix=%q authenticator=%s cause=%s: accepted %q then rejected %q", hc.mask, hc.prefix, kind.name, cause, first.name, second.name)
 
 		// request 1: accepted caller "intro" (its setup requests too)
 		e.caller = "intro"
+		if cause == "revoked-credential" {
+			e.caller, e.sameCred = "", true
+		}
 		if first.setup != nil {
 			if err := first.setup(e); err != nil {
 				venum.EngineError("C22 history: setup of first route %q: %v", first.name, err)
@@ -730,7 +758,9 @@ func TestVerif_C22(t *testing.T) {
 		// setup for request 2 is done by an accepted ANONYMOUS caller, so a
 		// "falls back to anonymous" defect can open the tokens it mints
 		e.caller = "anon"
-		if kind.withCtx {
+		if cause == "revoked-credential" {
+			e.caller = "" // same credential, still valid: tokens are minted for the very principal that is revoked next
+		} else if kind.withCtx {
 			e.caller = "intro" // the identity the rejecting authenticator hands back with its error
 		}
 		if second.setup != nil {
@@ -739,8 +769,11 @@ func TestVerif_C22(t *testing.T) {
 				return
 			}
 		}
-		// request 2: no caller header => the authenticator rejects
+		// request 2: no caller header => the authenticator rejects; in the
+		// revoked-credential histories the request is header-for-header what an
+		// accepted request looked like a moment ago
 		e.caller = ""
+		e.revoked = true
 		before := *e.c
 		evBefore := len(vfEvents)
 		rec, pan := second.send(e)
@@ -756,12 +789,15 @@ func TestVerif_C22(t *testing.T) {
 			rel = "after-same-route"
 		}
 		sig := "C22:history:" + rel + ":route:" + second.name
+		if cause == "revoked-credential" {
+			sig = "C22:history:revoked-credential:" + rel + ":route:" + second.name
+		}
 		if pan != nil {
 			x.Failf(sig+":panic", "panic escaped ServeHTTP: %v", pan)
 			return
 		}
 		vfC22CheckRejected(x, sig, second, e, rec, ev, d, kind.name, true)
-		x.Outcome("%s|%d -> %s|%d|%+v", first.name, rec1.Code, second.name, rec.Code, d)
+		x.Outcome("%s|%s|%d -> %s|%d|%+v", cause, first.name, rec1.Code, second.name, rec.Code, d)
 	})
 }
 
